@@ -69,6 +69,7 @@ theorem settle_ind {R : List Cmd → Task → Prop} {P : Task → Prop} (now : N
 def Task.held (t : Task) : List LockKey :=
   match t.pc with
   | .unlocking ls _ => t.locks ++ ls
+  | .midUnlock ls => t.locks ++ ls
   | _ => t.locks
 
 /-! ### what a step of one task leaves alone -/
@@ -135,7 +136,7 @@ theorem taskStep_seedGet {k : Nat} {n : Int} (h : t.pc = .seedGet k n) :
       { store := store, lock := lock,
         task := settle now t.prog { t with ov := t.ov.put k ((store k).getD 0 + n),
                                            results := t.results ++ [some ((store k).getD 0 + n)],
-                                           reads := t.reads ++ [store k] } } := by
+                                           reads := t.reads ++ [store k], pend := t.pend ++ [(k, n)] } } := by
   simp only [taskStep, h]
 
 theorem taskStep_readGet {k : Nat} (h : t.pc = .readGet k) :
@@ -184,6 +185,27 @@ theorem taskStep_unlocking_cons {l : LockKey} {rest : List LockKey} {o : Outcome
 
 theorem taskStep_finished {o : Outcome} (h : t.pc = .finished o) :
     taskStep tid now store lock t = { store := store, lock := lock, task := t } := by
+  simp only [taskStep, h]
+
+theorem taskStep_midDel (h : t.pc = .midDel) :
+    taskStep tid now store lock t =
+      { store := (Mut.delMany t.del).apply store, lock := lock,
+        task := if t.ov ≠ [] then { t with pc := .midSet } else afterMid now t, muts := [.delMany t.del] } := by
+  simp only [taskStep, h]
+
+theorem taskStep_midSet (h : t.pc = .midSet) :
+    taskStep tid now store lock t =
+      { store := (Mut.setMany t.ov).apply store, lock := lock, task := afterMid now t, muts := [.setMany t.ov] } := by
+  simp only [taskStep, h]
+
+theorem taskStep_midUnlock_nil (h : t.pc = .midUnlock []) :
+    taskStep tid now store lock t = { store := store, lock := lock, task := settle now t.prog t } := by
+  simp only [taskStep, h]
+
+theorem taskStep_midUnlock_cons {l : LockKey} {rest : List LockKey} (h : t.pc = .midUnlock (l :: rest)) :
+    taskStep tid now store lock t =
+      { store := store, lock := unlockOne lock l tid now,
+        task := if rest = [] then settle now t.prog t else { t with pc := .midUnlock rest } } := by
   simp only [taskStep, h]
 
 end
